@@ -55,7 +55,10 @@ SPECS += [
         params={"period": ("int", None), "input_value": ("name", None), "round_value": ("int", None), "s": ("int", None)},
         ctor={"skip": ("s",)},
         lets={"X": "input_value", "w": "s + period - 1", "eps": "Hulp(round_value)"},
-        extra_pre=COMMON_PRE,
+        # period 1 is a legal (degenerate) window: HMA builds WMA(int(p / 2)) and WMA(int(sqrt(p))) helpers, which are 1 for p = 2, 3.
+        # case split: the symbolic variants assume period >= 2, the "const:1" variant covers period == 1
+        extra_pre=dict(COMMON_PRE, **{"period>=2": "period >= 1"}),
+        general_pre={"period": "period >= 2"},
         inputs=X_NUM,
         inv={
             "presence": ("iff(Rd(c, j, N) is not None, j >= w)", ["C04", "C09"]),
@@ -64,7 +67,7 @@ SPECS += [
             "weighted-mean": ("implies(j >= w, Abs(num(Rd(c, j, N)) - Sigma(0, period, lambda k: num(Rd(c, j - k, X)) * (period - k))"
                               " / (period * (period + 1) / 2)) <= eps)", ["C04"], {"assume": False}),
         },
-        variants=[{}, {"input_value": "dotted"}],
+        variants=[{}, {"input_value": "dotted"}, {"period": "const:1"}, {"period": "const:1", "mode": "index"}],
         window="period",
         props=["C01", "C02", "C04", "C09", "C10", "C14"],
     ),
